@@ -3,7 +3,7 @@
    The model is of Heartbeat WITH fixes/C43-heartbeat-during-rebalance.patch.
    Liveness is relative to cleanup ticks ([Cleanup now] = one run of cleanupGroups at
    virtual time [now]); the ticker period is a parameter of the deployment. *)
-From KS Require Import lib.Base model.Coordinator proofs.CoordinatorBase proofs.CoordinatorProofs.
+From KS Require Import lib.Base model.Coordinator proofs.CoordinatorBase proofs.CoordinatorProofs proofs.CoordinatorTrace.
 Open Scope Z_scope.
 
 (* (1) a member whose last refresh is more than its session timeout ago is removed by the
@@ -76,6 +76,21 @@ Theorem C43_only_cleanup_or_leave_removes : forall E h o n0 n1 g g' k,
   In k (keys g') \/ (exists now, o = Leave k now) \/ (exists now, o = Cleanup now).
 Proof. intros E h. intros. eapply c43_only_cleanup_or_leave_removes; [apply run_inv|eassumption..]. Qed.
 Print Assumptions C43_only_cleanup_or_leave_removes.
+
+(* (6) trace level: along any history during which k stays a member, its lastHeartbeat is
+       the time of its last accepted refresh -- [last_refresh] scans the operations and
+       takes the time of a JoinGroup that (re)creates k or of a Heartbeat of k as current
+       member in the current generation (in any phase), nothing else (not syncs, commits,
+       other members' requests, cleanup ticks, rebalances, failovers). With (1)-(3): a
+       member is expired by a tick iff more than its session timeout has passed since
+       that refresh. *)
+Theorem C43_lasthb_is_last_refresh : forall E h h2 k n0 n1 g g' t t',
+  member_all E (run E h) h2 k ->
+  cur (run E h) n0 = Some g -> hb_of g k = Some t ->
+  cur (run_from E (run E h) h2) n1 = Some g' -> hb_of g' k = Some t' ->
+  t' = last_refresh E (run E h) h2 k t.
+Proof. intros E h h2 k n0 n1 g g' t t'. apply c43_lasthb_is_last_refresh. apply run_inv. Qed.
+Print Assumptions C43_lasthb_is_last_refresh.
 
 (* non-vacuity: thresholds at +-1 ms; a member heartbeating through a long rebalance stays *)
 Example C43_nonvacuous :
